@@ -47,6 +47,8 @@ namespace
     {
         if (kind == "setg1") return "gX = 1;";
         if (kind == "setg2") return "gX = 2;";
+        if (kind == "evalerr") return "gX = 1; gV = [__EVAL([1,2] select 7)];";
+        if (kind == "cfgevalerr") return "class A { x = 1; y[] = {__EVAL([1,2] select 7)}; };";
         if (kind == "readg") return "diag_log [\"G\", if (isNil \"gX\") then {\"nil\"} else {gX}];";
         if (kind == "readcfg") return "diag_log [\"C\", if (isNumber (configFile >> \"A\" >> \"x\")) then {1} else {0}];";
         if (kind == "ppfail") return "gX = 5;\n#endif\n";
